@@ -6,8 +6,11 @@ Three parts:
   2. the property predicate on the implementation itself, end to end: lint the corpora with all rules
      enabled, check every reported location against the file, and the k-shift relation, k in {1,3,10,100};
      the same relation for the diagnostics of the language server: generated multi-file workspaces (aggregate and
-     single-file violations, inline ignore directives) are loaded, then one file after the other is replaced by its
-     k-shifted text through the functions the server runs per edit, and the cached diagnostics are compared;
+     single-file violations, inline ignore directives; files with comments everywhere, without any comment, with
+     comments above the insertion points only) are loaded, then one file after the other is replaced through the
+     functions the server runs per edit by variants that differ in layout only: k blank lines at the top, before a
+     rule in the middle, at the end; every cached diagnostic at or below the insertion point must have moved by k,
+     the others must not have changed;
   3. proof gate for the theorems of Props/C07.v.
 """
 import json, os, re, threading
@@ -305,20 +308,20 @@ def chunk_starts(text):
 
 def add_layout_edits(rng, ws, quick=True):
     """the edits besides 'k blank lines at the top': k blank lines before a chunk in the middle of the file (quick: the
-    first chunk after the package clause with k = 1 and one more chosen by the seed with k = 10; thorough: up to four chunks, every
-    k) and k trailing blank lines"""
+    first chunk after the package clause with k = 1 and one more chosen by the seed with k = 10; thorough: up to three chunks, k in
+    {1, 10, 100} each) and k trailing blank lines"""
     cuts = {}
     for name in sorted(ws['files']):
         cs = chunk_starts(ws['files'][name])
         if not cs:
             cuts[name] = []
             continue
-        pick = [cs[0], cs[rng.below(len(cs))], cs[-1]] if quick else [cs[0]] + [cs[rng.below(len(cs))] for _ in range(2)] + [cs[-1]]
+        pick = [cs[0], cs[rng.below(len(cs))], cs[-1]] if quick else [cs[0], cs[rng.below(len(cs))], cs[-1]]
         if quick:
             pick = pick[:2]
         cuts[name] = sorted(set(pick))
     ws['cuts'] = cuts
-    ws['mid_ks'] = [1, 10] if quick else LSP_KS
+    ws['mid_ks'] = [1, 10] if quick else [1, 10, 100]
     ws['mid_cross'] = not quick
     ws['tail_ks'] = [3] if quick else [1, 100]
     return ws
@@ -370,36 +373,55 @@ def lsp_overlay(ctx, cases, workspaces):
     return rc, log, res, shift
 
 
+LSP_MAX_REPORTED = 8
+
+
 def report_lsp_shift(ctx, shift):
-    """verdicts of the end-to-end LSP layout-edit scenarios: one violation per (kind, rule, kind of edit)"""
-    seen = set()
+    """verdicts of the end-to-end LSP layout-edit scenarios: one violation per (kind, rule, kind of edit), the best
+    witnesses first (minimised, reproducible on a fresh cache with the one edit, small), at most LSP_MAX_REPORTED: a
+    change that breaks the server's bookkeeping wholesale shows in every rule and every edit"""
+    cands = []
     for ws in shift:
         for it in ws.get('issues') or []:
-            d = it.get('diag') or {}
             ed = it.get('edit') or {'kind': 'top', 'row': 0, 'k': it['k']}
-            sig = {'kind': 'lsp-shift-' + it['kind'], 'key': d.get('code') or it.get('err', '')[:80]}
-            if ed['kind'] != 'top':
-                sig['key'] += ' (%s)' % ed['kind']
-            if json.dumps(sig) in seen:
-                continue
-            seen.add(json.dumps(sig))
-            what = {
-                'missing-after-edit': 'a diagnostic of %s disappears (or does not move as the lines do)' % d.get('code'),
-                'extra-after-edit': 'a diagnostic of %s appears (or does not move as the lines do)' % d.get('code'),
-                'other-file-changed': 'the diagnostics of ANOTHER file (%s) change' % (it.get('other') or 'workspace root'),
-                'outside-file': 'a diagnostic of %s lies outside the file or ends before it starts' % d.get('code'),
-                'error': 'the per-edit lint fails: %s' % it.get('err', '')[:200],
-            }[it['kind']]
-            rws = {'name': ws['name'] + '-replay', 'files': it['files'], 'config': it.get('config', ''), 'edit': [it['file']],
-                   'ks': [ed['k']] if ed['kind'] == 'top' else [], 'cuts': {it['file']: [ed['row']]} if ed['kind'] == 'mid' else {},
-                   'mid_ks': [ed['k']] if ed['kind'] == 'mid' else [], 'mid_cross': True, 'tail_ks': [ed['k']] if ed['kind'] == 'tail' else []}
-            vlib.violation(ctx, {'kind': 'lsp-shift', 'lsp_workspace': rws,
-                                 'issue': it['kind'], 'file': it['file'], 'k': it['k'], 'edit': ed, 'diagnostic': d, 'minimised': it.get('minimised', False),
-                                 'before_edit': it.get('before'), 'after_edit': it.get('after'),
-                                 'what': 'language server: after replacing %s by the same text with %s (updateParse, updateFileDiagnostics, '
-                                         'aggregate-report-only updateAllDiagnostics) %s; every diagnostic at or below the insertion point has to '
-                                         'move by k lines, the others stay' % (it['file'], it.get('edit_text') or '%d blank lines at the top' % it['k'], what)},
-                           signature=sig)
+            size = sum(len(t) for t in (it.get('files') or {}).values())
+            rank = (0 if it.get('minimised') else 1, 1 if it.get('history') else 0, it['kind'] == 'error',
+                    {'top': 0, 'mid': 1, 'tail': 2}.get(ed['kind'], 3), len(it.get('history') or []), size)
+            cands.append((rank, ws, it, ed))
+    cands.sort(key=lambda c: c[0])
+    seen = set()
+    for rank, ws, it, ed in cands:
+        d = it.get('diag') or {}
+        sig = {'kind': 'lsp-shift-' + it['kind'], 'key': d.get('code') or it.get('err', '')[:80]}
+        if ed['kind'] != 'top':
+            sig['key'] += ' (%s)' % ed['kind']
+        if json.dumps(sig) in seen:
+            continue
+        if len(seen) >= LSP_MAX_REPORTED:
+            break
+        seen.add(json.dumps(sig))
+        what = {
+            'missing-after-edit': 'a diagnostic of %s disappears (or does not move as the lines do)' % d.get('code'),
+            'extra-after-edit': 'a diagnostic of %s appears (or does not move as the lines do)' % d.get('code'),
+            'other-file-changed': 'the diagnostics of ANOTHER file (%s) change' % (it.get('other') or 'workspace root'),
+            'outside-file': 'a diagnostic of %s lies outside the file or ends before it starts' % d.get('code'),
+            'error': 'the per-edit lint fails: %s' % it.get('err', '')[:200],
+        }[it['kind']]
+        rws = {'name': ws['name'] + '-replay', 'files': it['files'], 'config': it.get('config', ''), 'edit': [it['file']],
+               'ks': [ed['k']] if ed['kind'] == 'top' else [], 'cuts': {it['file']: [ed['row']]} if ed['kind'] == 'mid' else {},
+               'mid_ks': [ed['k']] if ed['kind'] == 'mid' else [], 'mid_cross': True, 'tail_ks': [ed['k']] if ed['kind'] == 'tail' else []}
+        if it.get('history'):
+            rws['program'] = it['history']      # the issue needs the earlier edits of the session
+        vlib.violation(ctx, {'kind': 'lsp-shift', 'lsp_workspace': rws,
+                             'issue': it['kind'], 'file': it['file'], 'k': it['k'], 'edit': ed, 'diagnostic': d, 'minimised': it.get('minimised', False),
+                             'needs_session_history': bool(it.get('history')), 'n_issues_in_this_run': len(cands),
+                             'before_edit': it.get('before'), 'after_edit': it.get('after'),
+                             'what': 'language server: after replacing %s by the same text with %s%s (updateParse, updateFileDiagnostics, '
+                                     'aggregate-report-only updateAllDiagnostics) %s; every diagnostic at or below the insertion point has to '
+                                     'move by k lines, the others stay'
+                                     % (it['file'], it.get('edit_text') or '%d blank lines at the top' % it['k'],
+                                        ' (after %d earlier layout-only edits of the session)' % (len(it['history']) - 1) if it.get('history') else '', what)},
+                       signature=sig)
 
 
 def run(ctx):
